@@ -129,6 +129,30 @@ def static_exec(n=25):
     return f
 
 
+def static_handover_exec():
+    """a small fixed storage changes hands (move construction / assignment at a random point) and is then used
+    up: the new owner refuses at the end of the storage it took over - not earlier, not later"""
+    def f(rng):
+        bs = rng.choice([256, 512, 1024])
+        if rng.random() < 0.5:
+            h = {"fam": "stack", "src": "static", "place": rng.choice(["lo", "hi"]), "member": 0, "ssz": 2048, "bs": bs}
+            one = "an %d 8" % (bs // 3)
+        else:
+            ns = rng.choice([16, 32, 64])
+            h = {"fam": "pool", "type": rng.choice(["node", "array", "small"]), "src": "static", "ns": ns,
+                 "place": rng.choice(["lo", "hi"]), "member": 0, "ssz": 2048, "bs": bs}
+            one = "an %d 8" % ns
+        per_block = max(1, (bs - 32) // (bs // 3 if h["fam"] == "stack" else h["ns"]))
+        before = rng.randint(0, per_block * (2048 // bs))
+        cmds = [one] * before + ["%s %d" % (rng.choice(["ma", "ma", "mv"]), rng.randint(0, 1)), "kz"]
+        cmds += [one] * (per_block * (2048 // bs) + 3 - before)
+        if rng.random() < 0.5:
+            cmds += ["%s %d" % (rng.choice(["ma", "mv"]), rng.randint(0, 1)), "kz"] + [one] * 3
+        cmds += ["nofail", "sweep"] + ["d 0"] * 6
+        return [(h, cmds)]
+    return f
+
+
 def moved(maker, p=0.08):
     def f(rng):
         # every second execution assigns onto targets built with other parameters (node size, block size)
@@ -314,6 +338,11 @@ def jobs_for(prop, tier, seed):
                                                       (3, stack_replay_exec())])
         add(["base", "dbg"], "moves", [(4, moved(pool_exec())), (3, moved(coll_exec())), (3, moved(stack_exec())),
                                        (2, moved(iter_exec()))])
+        # fixed storages that change hands: the new owner must stay inside the storage it took over
+        add(["rel", "dbg"], "static", [(3, moved(stack_exec(src="static", n=70), 0.06)), (3, moved(pool_exec(src="static", n=90), 0.06)),
+                                       (2, arena_exec(src="static", n=50)), (6, static_handover_exec())])
+        # arrays around the reported maxima (the last-resort reservation of a collection)
+        add(["rel", "base"], "maxima", [(6, coll_max_exec())])
     elif prop == "C03":
         add(["rel", "base", "dbg"], "exhaust", [(6, pool_exec(src="fixed", n=80)), (6, coll_exec(src="fixed", n=90)),
                                                 (4, stack_exec(src="fixed", n=50)), (4, stack_exec(src="static", n=80)),
@@ -329,6 +358,10 @@ def jobs_for(prop, tier, seed):
         add(["rel", "base", "dbg"], "pools", [(8, pool_exec(ptype="node", n=90)), (10, pool_exec(ptype="array", n=90)),
                                               (6, pool_exec(ptype="small", n=90))])
         add(["rel", "base", "dbg"], "colls", [(14, coll_exec(n=100))])
+        # a pool that was moved (all nodes handed out, some, none) takes its nodes back and hands them out again
+        add(["rel", "base", "dbg"], "moves", [(5, moved(pool_exec(n=60), 0.1)), (3, moved(coll_exec(n=60), 0.1)),
+                                              (1, move_all_positions(pool_exec(ptype="small", n=10))),
+                                              (1, move_all_positions(pool_exec(ptype="node", n=10)))])
     elif prop == "C05":
         add(["rel", "base", "dbg"], "arena", [(6, pool_exec()), (6, coll_exec()), (8, stack_exec(n=80)), (4, iter_exec()),
                                               (4, stack_replay_exec())])
@@ -349,7 +382,7 @@ def jobs_for(prop, tier, seed):
         add(["rel", "base", "dbg"], "arena", [(10, arena_exec(n=50))])
         # fixed storages: after a move or swap the new owner has to run into the end of the SOURCE's storage
         add(["rel", "base", "dbg"], "static", [(5, moved(stack_exec(src="static", n=70), 0.06)), (5, moved(pool_exec(src="static", n=90), 0.06)),
-                                               (4, arena_exec(src="static", n=50))])
+                                               (4, arena_exec(src="static", n=50)), (6, static_handover_exec())])
         add(["rel", "base", "dbg"], "random", [(6, moved(pool_exec(), 0.1)), (5, moved(coll_exec(), 0.1)),
                                                (5, moved(stack_exec(), 0.1)), (4, moved(iter_exec(), 0.1)),
                                                (3, moved(stack_replay_exec(), 0.06))])
